@@ -1,0 +1,93 @@
+// Copyright ©2026 The Gonum Authors. All rights reserved.
+// Use of this source code is governed by a BSD-style
+// license that can be found in the LICENSE file.
+
+//go:build verif
+
+package simple
+
+// Machine-checked contracts for the map-backed simple graphs (verification
+// hook, build tag verif; this file contains comments only). See /verif/DESIGN.md.
+//
+// dgInv is the representation invariant of DirectedGraph: the top-level maps
+// exist and are distinct, stored inner maps are non-nil and not shared, the
+// forward and reverse adjacency mirror each other, every edge endpoint is a
+// node, no self edges, and the ID pool's used set is exactly the node set. It
+// is established by the constructor and preserved by every mutator, hence
+// holds after every history of operations.
+
+//@ spec dgInv(g *DirectedGraph) bool = g != nil && g.nodes != nil && g.from != nil && g.to != nil && g.from != g.to && uid.setInv(g.nodeIDs) &&
+//@   forall(u, has(g.from, u) ==> g.from[u] != nil) && forall(u, has(g.to, u) ==> g.to[u] != nil) &&
+//@   forall(u, forall(v, has(g.from, u) && has(g.from, v) && u != v ==> g.from[u] != g.from[v])) &&
+//@   forall(u, forall(v, has(g.to, u) && has(g.to, v) && u != v ==> g.to[u] != g.to[v])) &&
+//@   forall(u, forall(v, has(g.from, u) && has(g.to, v) ==> g.from[u] != g.to[v])) &&
+//@   forall(u, forall(v, (has(g.from, u) && has(g.from[u], v)) == (has(g.to, v) && has(g.to[v], u)))) &&
+//@   forall(u, forall(v, has(g.from, u) && has(g.from[u], v) ==> has(g.nodes, u) && has(g.nodes, v) && u != v)) &&
+//@   forall(u, has(g.nodes, u) == has(g.nodeIDs.used, u))
+
+//@ spec fe(g *DirectedGraph, u int, v int) bool = has(g.from, u) && has(g.from[u], v)
+//@ spec te(g *DirectedGraph, u int, v int) bool = has(g.to, u) && has(g.to[u], v)
+
+//@ func NewDirectedGraph props: C12
+//@ ensures dgInv(result)
+//@ ensures forall(u, !has(result.nodes, u))
+
+//@ func DirectedGraph.AddNode props: C12
+//@ requires dgInv(g) && n != nil
+//@ modifies g.nodes, g.nodeIDs.used, g.nodeIDs.free, g.nodeIDs.maxID
+//@ valid !has(g.nodes, n.ID())
+//@ panics iff !valid, before-writes
+//@ ensures dgInv(g)
+//@ ensures forall(u, has(g.nodes, u) == (old(has(g.nodes, u)) || u == n.ID()))
+
+//@ func DirectedGraph.RemoveEdge props: C12
+//@ requires dgInv(g)
+//@ modifies g.from[fid], g.to[tid]
+//@ ensures dgInv(g)
+//@ ensures forall(u, forall(v, (has(g.from, u) && has(g.from[u], v)) == (old(has(g.from, u) && has(g.from[u], v)) && !(u == fid && v == tid))))
+
+//@ func DirectedGraph.HasEdgeFromTo props: C12
+//@ requires dgInv(g)
+//@ ensures result == (has(g.from, uid) && has(g.from[uid], vid))
+
+//@ func DirectedGraph.HasEdgeBetween props: C12
+//@ requires dgInv(g)
+//@ ensures result == ((has(g.from, xid) && has(g.from[xid], yid)) || (has(g.from, yid) && has(g.from[yid], xid)))
+
+//@ func DirectedGraph.SetEdge props: C12
+//@ requires dgInv(g) && e != nil && e.From() != nil && e.To() != nil
+//@ modifies g.nodes, g.nodeIDs.used, g.nodeIDs.free, g.nodeIDs.maxID, g.from, g.to, g.from[e.From().ID()], g.to[e.To().ID()]
+//@ valid e.From().ID() != e.To().ID()
+//@ panics iff !valid, before-writes
+//@ ensures dgInv(g)
+//@ ensures forall(u, has(g.nodes, u) == (old(has(g.nodes, u)) || u == e.From().ID() || u == e.To().ID()))
+//@ ensures forall(u, forall(v, (has(g.from, u) && has(g.from[u], v)) == (old(has(g.from, u) && has(g.from[u], v)) || (u == e.From().ID() && v == e.To().ID()))))
+
+//@ func DirectedGraph.RemoveNode props: C12
+//@ requires dgInv(g)
+//@ modifies g.nodes, g.nodeIDs.used, g.nodeIDs.free, g.from, g.to, all(g.from[id])
+//@ ensures dgInv(g)
+//@ ensures forall(u, has(g.nodes, u) == (old(has(g.nodes, u)) && u != id))
+//@ ensures forall(u, forall(v, (has(g.from, u) && has(g.from[u], v)) == (old(has(g.from, u) && has(g.from[u], v)) && u != id && v != id)))
+//@ loop 1: invariant forall(u, forall(v, fe(g, u, v) == atloop(fe(g, u, v))))
+//@ invariant forall(u, forall(v, te(g, u, v) == (atloop(te(g, u, v)) && !(v == id && seen(u)))))
+//@ loop 2: invariant forall(u, forall(v, te(g, u, v) == atloop(te(g, u, v))))
+//@ invariant forall(u, forall(v, fe(g, u, v) == (atloop(fe(g, u, v)) && !(v == id && seen(u)))))
+
+//@ func DirectedGraph.Node props: C12
+//@ requires dgInv(g)
+//@ ensures (result != nil) ==> has(g.nodes, id)
+
+//@ func DirectedGraph.Edge props: C12
+//@ requires dgInv(g)
+//@ ensures (result != nil) ==> (has(g.from, uid) && has(g.from[uid], vid))
+
+//@ func DirectedGraph.NewNode props: C12
+//@ requires dgInv(g)
+//@ requires g.nodeIDs.maxID != uid.Max || exists(x, 0, uid.Max, !has(g.nodeIDs.used, x))
+//@ option may-panic
+//@ ensures result != nil && !has(g.nodes, result.ID())
+
+//@ func DirectedGraph.NodeWithID props: C12
+//@ requires dgInv(g)
+//@ ensures new == !has(g.nodes, id)
